@@ -32,6 +32,10 @@ pub fn configs(thorough: bool) -> Vec<EpCfg> {
                     if auto && !offline && (thorough || role == RoleK::Client) {
                         c.alph.toggle_opts = vec![0, 1];
                     }
+                    // manual responses: set_offline_publish() switched on and off again (also between connections)
+                    if !auto && !offline && (thorough || role == RoleK::Client) {
+                        c.alph.toggle_opts = vec![1];
+                    }
                     c.groups = vec!["c06"];
                     v.push(c);
                 }
